@@ -71,12 +71,12 @@ EXTRA_PROPS = {
     "C01": ["P1", "ShexStage", "FreqLawsProps"],
     "C02": ["P1", "ShexStage", "FreqLawsProps"],
     "C03": ["ShexStage"],
-    "C04": ["ShexStage"],
-    "C05": ["C05refs", "ShexStage"],
+    "C04": ["ShexStage", "CurTransfer"],
+    "C05": ["C05refs", "ShexStage", "CurTransfer"],
     "C08": ["C06Channels"],
-    "C09": ["P1", "ShexStage"],
+    "C09": ["P1", "ShexStage", "CurTransfer"],
     "C12": ["FreqLawsProps"],
-    "C13": ["ShexStage"],
+    "C13": ["ShexStage", "CurTransfer"],
     "C17": ["ShexStage"],
     "C18": ["ShexStage"],
     "C14": ["ShexStage"],
